@@ -58,7 +58,7 @@ fn main() {
                 .filter(|l| !l.is_empty())
                 .collect();
             // sweep lines may not return: evaluate them under the watchdog
-            let results = if lines.iter().any(|l| l.starts_with("sw_") || l.starts_with("w20_")) {
+            let results = if lines.iter().any(|l| l.starts_with("sw_") || l.starts_with("w20_") || l.starts_with("cal_")) {
                 guard::eval_guarded(&lines)
             } else {
                 lines.iter().map(|l| ops::eval_line(l)).collect()
